@@ -1592,9 +1592,11 @@ func isComplexAggregationExpression(expr string) bool {
 	// Special case: single aggregation function with nested expression (only when OUTER is aggregation)
 	isSingleAggWithNestedFunc := false
 	if aggCount == 1 && outerIsAggregation {
+		// The argument ends at the parenthesis matching the call's opening one, and the
+		// call must be the whole expression: "avg(t)*2" only starts with an aggregate call
 		start := strings.Index(expr, "(")
-		end := strings.LastIndex(expr, ")")
-		if start != -1 && end != -1 && end > start {
+		end := findMatchingParenInternal(expr, start)
+		if start != -1 && end != -1 && strings.TrimSpace(expr[end+1:]) == "" {
 			innerExpr := strings.TrimSpace(expr[start+1 : end])
 			if !containsOperators(innerExpr) {
 				isSingleAggWithNestedFunc = true
